@@ -1,23 +1,48 @@
 """C03 (DES / TDEA part) — DES and triple-DES are permutations: dec inverts enc and enc inverts dec for every key and
 block, the result has the block length, and IP / IPinv are mutual inverses on their entire domain.
 
-check_impl evaluates the round trips and the length law on the implementation's own outputs."""
+check_impl evaluates the round trips and the length law on the implementation's own outputs.  Every round-trip line is
+executed by ONE cipher object, which performs both orders and repeats its calls (props/parts/one_object.py)."""
 from props.common import *
 from props.parts import desref as R
 from props.parts import c02_des as C2
+from props.parts import one_object as OO
 
 PREFIX = ('des.', 'tdea.')
 LEAN_PROOFS = ['Proofs.C03_Des']
 GEN_ITEMS = ['Des']
+RULE = ('DES/TDEA: round-trip lines des.rt.de/ed, tdea.rt.de/ed over the C02 key/block families and every TDEA calling form — ONE cipher '
+        'object per line performs f;finv(f);finv;f(finv);f again —, length law lines, IP/IPinv on the unit basis, extremes, random; '
+        'wrong sizes; distinct lines; non-trivial = a value was returned')
 TRUSTED = []
 ASSUMPTIONS = ['DES/TDEA keys and blocks are bytes objects']
 
-run_impl = C2.run_impl
+RT = ('des.rt.de', 'des.rt.ed', 'tdea.rt.de', 'tdea.rt.ed')
+
+def run_impl(line):
+    """the round-trip lines: ONE DES / TDEA object per line performs the whole chain of props.parts.one_object (both
+    orders and the repeated calls); its value is the round trip of the line, annotated when the chain is inconsistent"""
+    t = line.split(); op, a = t[0], t[1:]
+    if op not in RT: return C2.run_impl(line)
+    from crysp import des as D
+    def go():
+        if op.startswith('des.'):
+            o = D.DES(unhx(a[0]))
+        else:
+            k1, k2, k3 = unhx(a[0]), C2.ob(a[1]), C2.ob(a[2])
+            # the calling form is part of the input: omitted arguments are really omitted
+            if k2 is None and k3 is None: o = D.TDEA(k1)
+            elif k3 is None: o = D.TDEA(k1, k2)
+            else: o = D.TDEA(k1, k2, k3)
+        m = unhx(a[-1])
+        return OO.chain(o, lambda: m, 'enc' if op.endswith('.de') else 'dec')
+    return guarded(go)
 
 
 def check_impl(line, res):
     t = line.split(); op, a = t[0], t[1:]
     bad = lambda why: '%s: %s' % (op, why)
+    if op in RT and OO.notes_of(res): return bad(OO.notes_of(res))
     if op in ('des.rt.de', 'des.rt.ed', 'tdea.rt.de', 'tdea.rt.ed', 'des.iprt'):
         return C2.check_impl(line, res)
     if op in ('des.len.enc', 'des.len.dec', 'tdea.len.enc', 'tdea.len.dec'):
